@@ -399,6 +399,31 @@ def simulator_coordinates(S, rep):
                        key="C06.d|%s|coord|%d|%s" % (kind, c, short(got, 80)), sample={"simulator": lab, "coordinate": "xyz"[c], "value": short(got, 120)})
 
 
+def working_precision_buffers(S, rep):
+    """both precisions: the weights sum to one because the four cell distances of a marker are exactly one cell apart; a
+    forcing object working in double precision must therefore keep distances, indices' companions and weights in double
+    precision (a float32 distance buffer rounds them before the delta function is evaluated). Every floating-point array the
+    forcing classes allocate for themselves has the precision they were constructed with."""
+    from ..driver import Session
+    from ..values import Arr
+    from .traces import build_vbf
+    found = 0
+    for prec in ("float64", "float32"):
+        S2 = Session(S.repo, prec)
+        for dim in (2, 3):
+            inst = build_vbf(S2, dim, False)
+            bad = []
+            for a, v in sorted(inst.attrs.items()):
+                if isinstance(v, Arr) and v.dtype is not None and v.dtype.name.startswith(("float", "complex")):
+                    found += 1
+                    if v.dtype.name != prec:
+                        bad.append("%s is %s" % (a, v.dtype.name))
+            rep.ob("C06.p", "VirtualBoundaryForcing %dD constructed with real_t=%s keeps its buffers in that precision" % (dim, prec), not bad,
+                   "; ".join(bad) if bad else "all floating-point buffers are %s" % prec, key="C06.p|%d|%s|%s" % (dim, prec, bad), nontrivial=False)
+    if found < 16:
+        raise Unsupported("expected at least 16 floating-point buffers on the forcing objects, found %d" % found)
+
+
 def run(S, tier, rep):
     rep.rule_text = ("the communicator kernels are interpreted abstractly (numba bodies as numpy code, one generic marker): support distances, "
                      "nearest index, weight shape and transfer windows must be one index set with x on the last axis; the weight kernels, fed "
@@ -413,6 +438,8 @@ def run(S, tier, rep):
     grid_agreement(S, rep)
     simulator_coordinates(S, rep)
     weights_single_writer(S, rep)
+    working_precision_buffers(S, rep)
+    rep.require_min("C06.p", 4)
     rep.require_min("C06.d", 16)
     rep.require_min("C06.a", 8)
     rep.require_min("C06.b", 25)
